@@ -155,7 +155,7 @@ inductive Action
   | emit (i : Nat) | pumpOut (i : Nat) | pumpDrop (i : Nat) | pumpEnd (i : Nat) | innerCtx (i : Nat)
   | dispatch (i : Nat) | loopEnd (i : Nat) | pubClose (i : Nat) | wgDone (i : Nat) | loopDelete (i : Nat)
   | hStart (m : Nat) | hReturn (m : Nat) (ok : Bool) | hPublished (m : Nat) (ok : Bool) | hSettle (m : Nat)
-  | hcClose (i : Nat) | hcCtx (i : Nat) | hcInnerRet (i : Nat) | hcPumpWaited (i : Nat) | hcStop (i : Nat)
+  | hcClose (i : Nat) | hcCtx (i : Nat) | hcInnerRet (i : Nat) | hcCloseFail (i : Nat) | hcPumpWaited (i : Nat) | hcStop (i : Nat)
   | stop (i : Nat) | cancelExt
   | closeCall | closeCL (k : Nat) | closeHL (k : Nat) | closeDone (k : Nat) | closeTimeout (k : Nat) | timer
   | wLoops | wLock | wRunning
@@ -359,6 +359,12 @@ def act (fx : Fix) (s : St) : Action → Option St
         some (updH s i fun h => { h with hc := .waitPump, innerClosed := true, decClosing := true })
       else none
     | none => none
+  /- the subscriber's Close returns an error without having ended the subscription (e.g. an outer decorator failed before it
+     reached the wrapped subscriber): handleClose logs it and goes on to `stopFn()` – the context is the second way out -/
+  | .hcCloseFail i =>
+    match s.hs[i]? with
+    | some h => if h.hc = .innerCall then some (updH s i fun h => { h with hc := .stop }) else none
+    | none => none
   | .hcPumpWaited i =>
     match s.hs[i]? with
     | some h => if h.hc = .waitPump ∧ h.pump = .done then some (updH s i fun h => { h with hc := .stop }) else none
@@ -423,7 +429,7 @@ def act (fx : Fix) (s : St) : Action → Option St
 
 /-- environment actions (callers, subscribers' emissions, handler outcomes, timer); everything else is the router's own -/
 def Action.isEnv : Action → Bool
-  | .addHandler | .runCall | .rhCall | .rhSubFail _ | .emit _ | .hReturn _ _ | .hPublished _ _ | .stop _ | .cancelExt
+  | .addHandler | .runCall | .rhCall | .rhSubFail _ | .hcCloseFail _ | .emit _ | .hReturn _ _ | .hPublished _ _ | .stop _ | .cancelExt
   | .closeCall | .timer => true
   | _ => false
 
@@ -434,7 +440,7 @@ def cands (s : St) : List Action :=
    .watchCheck]
   ++ (List.range s.hs.length).flatMap (fun i =>
       [.rhSub i, .rhSubFail i, .emit i, .pumpOut i, .pumpDrop i, .pumpEnd i, .innerCtx i, .dispatch i, .loopEnd i, .pubClose i,
-       .wgDone i, .loopDelete i, .hcClose i, .hcCtx i, .hcInnerRet i, .hcPumpWaited i, .hcStop i, .stop i])
+       .wgDone i, .loopDelete i, .hcClose i, .hcCtx i, .hcInnerRet i, .hcCloseFail i, .hcPumpWaited i, .hcStop i, .stop i])
   ++ (List.range s.msgs.length).flatMap (fun m =>
       [.hStart m, .hReturn m true, .hReturn m false, .hPublished m true, .hPublished m false, .hSettle m])
   ++ (List.range s.closers.length).flatMap (fun k => [.closeCL k, .closeHL k, .closeDone k, .closeTimeout k])
